@@ -210,35 +210,10 @@ func checkAllocators(c *Ctx, rule string) {
 		R.Check(ok, rule, "icmp.nextEchoID#result", ne.Pos(), core.FuncName(ne), "the echo id is the atomically incremented counter itself (mod 2^16)", fmt.Sprintf("the echo id is post-processed after the atomic increment (%d return paths, e.g. %s): two allocations can yield the same identifier while fewer than 65536 are live", len(rps), desc))
 	}
 	// SYN driver ids are base + widen(ttl) with base from AllocPacketID(MaxTTL)
-	var g *ssa.Function
 	for _, d := range Drivers(c.P) {
 		if d.Pkg == "tcp" {
-			g = synIDFunc(c, d)
+			checkSynProbeIDs(c, d, rule)
 		}
-	}
-	if g == nil {
-		R.Fail(rule, "tcp.getNextPacketIDAndSeqNum#anchor", 0, "", "the SYN driver's (IP-ID, sequence number) allocation method no longer resolves (no unique (uint16, uint32) function in SendProbe's tree)")
-	} else {
-		rps, _ := core.ReturnPaths(c.P, g, 100)
-		n := 0
-		for _, rp := range rps {
-			f1, s1 := atomTrue(rp.Atoms, func(t *core.Term) bool { return strings.HasSuffix(t.String(), ".ParisTracerouteMode") })
-			if f1 && s1 {
-				continue
-			}
-			n++
-			r := rp.Results[0]
-			ok := true
-			for _, r := range expandHelperResults(c.P, r) {
-				isBase := func(t *core.Term) bool { return t.String() == "recv.basePacketID" }
-				isTTL := func(t *core.Term) bool { return t.String() == "conv[uint16](param:ttl)" }
-				if !(r.Op == "binop" && r.Name == "+" && (isBase(r.Args[0]) && isTTL(r.Args[1]) || isBase(r.Args[1]) && isTTL(r.Args[0]))) {
-					ok = false
-				}
-			}
-			R.Check(ok, rule, "tcp.getNextPacketIDAndSeqNum#id", rp.Ret.Pos(), core.FuncName(g), "default-mode IP-ID = basePacketID + uint16(ttl)", "default-mode IP-ID is "+r.String())
-		}
-		R.Floor(rule+":syn-id-paths", n, 1)
 	}
 	// basePacketID = AllocPacketID(config.MaxTTL)
 	h := c.P.Func("tcp.newTCPDriver")
